@@ -1,6 +1,7 @@
 package main
 
 import (
+	"encoding/json"
 	"fmt"
 	"go/ast"
 	"go/parser"
@@ -107,6 +108,25 @@ func genHtmlVocab() {
 		}
 		return true
 	})
+	// The compiled patterns as the built package reports them (harness htmlvocab, given
+	// with -htmlvocab) take precedence: they do not depend on how the source spells them.
+	if vocabFile != "" {
+		raw, err := os.ReadFile(vocabFile)
+		if err != nil {
+			fatal("htmlvocab: %v", err)
+		}
+		var pats map[string]string
+		if err := json.Unmarshal(raw, &pats); err != nil {
+			fatal("htmlvocab: %v", err)
+		}
+		for k, pat := range pats {
+			alts, ok := alternatives(pat)
+			if !ok {
+				fatal("htmldoc pattern %s = %q is not of the shape (?i)(^|[^a-z])(A|B|...)([^a-z]|$)", k, pat)
+			}
+			found[k] = alts
+		}
+	}
 	var b strings.Builder
 	b.WriteString(header + "namespace Tabula.Gen.HtmlVocab\n\n")
 	for _, k := range []string{"nav", "header", "footer", "sidebar", "excluded"} {
